@@ -7,6 +7,7 @@
   huge-size / concurrent-caller streams).
 -/
 import QlibcModel.Generated.Shapes
+import QlibcModel.Generated.HarrLayout
 
 namespace Qlibc.Shapes.Harr
 open Qlibc.Generated.Shapes
@@ -17,5 +18,21 @@ theorem widths_as_modelled : harrWidths = [("slot_count", 2), ("slot_hash", 4), 
 /-- no function of this family keeps state in a function-local static object: results depend on the
     arguments (and the container) only, also when several threads are inside at once -/
 theorem no_hidden_static_state : harrStatics = [] := by decide
+
+/-- **truncated keys are told apart by the WHOLE digest**: every `memcmp` of `get_idx()` that involves an
+    MD5 operand compares, and every `memcpy` of `put_data()` that involves one stores, exactly the
+    `sizeof(pair.namemd5)` = 16 bytes of the stored digest (byte counts as the compiler evaluates them in the
+    CURRENT source - a `sizeof` of a pointer or a shorter literal shows up here), and the name comparison
+    of a key longer than the inline name covers the whole inline name: the model's `getIdx`, which
+    compares `md5` and the `nameSize`-byte prefix as lists, is the code's comparison -/
+theorem digest_compared_whole :
+    Qlibc.Generated.HarrLayout.digestCmpBytes = [Qlibc.Generated.HarrLayout.sizeofPairMd5] ∧
+    Qlibc.Generated.HarrLayout.digestCopyBytes = [Qlibc.Generated.HarrLayout.sizeofPairMd5] ∧
+    Qlibc.Generated.HarrLayout.sizeofPairMd5 = 16 ∧
+    Qlibc.Generated.HarrLayout.longNameCmpBytes = [Qlibc.Generated.HarrLayout.nameSize] := by decide
+
+/-- the assert() calls of this family, as reviewed: comparisons of fields only - nothing is lost when the
+    release build (-DNDEBUG) drops them; a new or changed assert() has to be reviewed here -/
+theorem asserts_side_effect_free : harrAsserts = [("qhasharr.c", "tblslots[idx].count == 0"), ("qhasharr.c", "tblslots[idx].count != 0"), ("qhasharr.c", "tblslots[idx].count != 0")] := by decide
 
 end Qlibc.Shapes.Harr
